@@ -12,8 +12,6 @@ namespace Pfst.Reconcile
 
 /-! ### paths into the marked tree -/
 
-def markAt (mark : T) (q : Path) : T := (getAt mark q).getD .nil
-
 theorem getAt_append (t : T) (p q : Path) : getAt t (p ++ q) = (getAt t p).bind (fun c => getAt c q) := by
   induction p generalizing t with
   | nil => simp [getAt]
@@ -73,47 +71,6 @@ theorem inPlace_base (np : NP) (rel : Path) (l : Option Loc) (h : inPlace np rel
         simp only [inPlace, Bool.and_eq_true, beq_iff_eq] at h
         exact ⟨pq, rfl, by simp [qOf, Loc.full, h.1, h.2]⟩
     | succ t => cases l <;> simp [inPlace] at h
-
-/-! ### side conditions -/
-
-/-- Python `==` is exact on the compared pair (edited scalar, marked field). -/
-def primOK : T → T → Bool
-  | .prim v, .prim w => v.eqc != w.eqc || v == w
-  | _, _ => true
-
-/-- a list field of the edited node sits over a list field of the same class and mode; scalars compare exactly -/
-def fieldOK (m c : T) : Bool :=
-  match c with
-  | .many s md _ => (match m with | .many s' md' _ => s == s' && md == md' | _ => false)
-  | c => primOK c m
-
-def shapeOK : List T → List T → Bool
-  | [], [] => true
-  | m :: ms, c :: cs => fieldOK m c && shapeOK ms cs
-  | _, _ => false
-
-mutual
-def wfN (mark : T) : T → Bool
-  | .nil => true
-  | .prim _ => true
-  | .many _ _ _ => false
-  | .node o k cs =>
-    match o with
-    | .foreign true tid _ _ => tid != 0
-    | .foreign false tid _ _ => tid != 0 && wfFs mark cs
-    | .new => wfFs mark cs
-    | .tree l =>
-      (match markAt mark (qOf l) with
-       | .node _ mk mcs => mk == k && shapeOK mcs cs
-       | _ => false) && wfFs mark cs
-def wfFs (mark : T) : List T → Bool
-  | [] => true
-  | .many _ md items :: r => md != 2 && wfEs mark items && wfFs mark r
-  | c :: r => wfN mark c && wfFs mark r
-def wfEs (mark : T) : List T → Bool
-  | [] => true
-  | x :: r => wfN mark x && wfEs mark r
-end
 
 /-! ### slot hypotheses of the list recursions -/
 
